@@ -431,7 +431,7 @@ func (g *Gen) Spec(seed uint64, index int) Spec {
 
 	// collide runs: a handful of constructor texts that share a hash bucket,
 	// parsed over and over by every task under a dense schedule
-	collide := !wide && len(sp.Ecos) > 0 && p.chance(1, 8)
+	collide := !wide && len(sp.Ecos) > 0 && p.chance(1, 6)
 	if collide {
 		e := p.n(len(sp.Ecos))
 		if cs := g.colliders(p, sp.Ecos[e].Name, false, p.rng(2, 4)); len(cs) >= 2 {
